@@ -163,6 +163,8 @@ class Dense:
                 r = sp.find(w)
                 if r not in m:
                     m[r] = sp.new(sp.size[r], sp.tag.get(r, ""))
+                    if r in getattr(sp, "tested", ()) or w in getattr(sp, "tested", ()):
+                        sp.tested.add(m[r])
                 return m[r]
             atoms = [Atom(a.name, a.conj, tuple(tuple(f(w) for w in ax) for ax in a.axes)) for a in t.atoms]
             out = [tuple(f(w) for w in ax) for ax in t.out]
@@ -548,11 +550,11 @@ def _unify_axes(sp: Space, a, b, ctx):
     # a unit axis is broadcast.  When the axis is 1 because a guard on this path established it (its wire carries a symbolic size that the facts
     # of the path reduce to 1), the code has tested for exactly this case and the broadcast is deliberate; a literal unit axis says nothing
     if not a_ and len(b_) == 1:
-        tested = any(sp.wire_size_raw(w) != ONE for w in a) if hasattr(sp, "wire_size_raw") else False
+        tested = any(sp.wire_size_raw(w) != ONE or w in getattr(sp, "tested", ()) for w in a)
         sp.obligations.append({"a": "1", "b": repr(sp.sz(b_[0])), "ok": tested, "where": sp.where, "ctx": ctx + " (unit axis broadcast)", "tags": ("", sp.tag.get(b_[0], ""))})
         return b
     if not b_ and len(a_) == 1:
-        tested = any(sp.wire_size_raw(w) != ONE for w in b) if hasattr(sp, "wire_size_raw") else False
+        tested = any(sp.wire_size_raw(w) != ONE or w in getattr(sp, "tested", ()) for w in b)
         sp.obligations.append({"a": repr(sp.sz(a_[0])), "b": "1", "ok": tested, "where": sp.where, "ctx": ctx + " (unit axis broadcast)", "tags": (sp.tag.get(a_[0], ""), "")})
         return a
     raise Unmodelled(f"{ctx}: contraction of differently merged axes ({len(a_)} vs {len(b_)} wires)")
